@@ -93,7 +93,7 @@ type zzChild struct {
 	sz uint64
 }
 
-func (c *zzChild) Cid() cid.Cid            { return c.c }
+func (c *zzChild) Cid() cid.Cid          { return c.c }
 func (c *zzChild) Size() (uint64, error) { return c.sz, nil }
 
 // ---- reference model -------------------------------------------------------------------------------------
